@@ -206,6 +206,9 @@ pub fn run(tier: Tier, seed: u64) -> i32 {
     if !run.failed() {
         run.random("random-dense", tier.pick(250_000, 8_000_000), 600, |b| case_profile(b, &Profile::dense()));
     }
+    if tier == Tier::Thorough && !run.failed() {
+        run.fuzz("libfuzzer", 1_500_000, 8, 600, fuzz_case);
+    }
     run.finish()
 }
 
@@ -224,5 +227,14 @@ pub fn replay(doc: &serde_json::Value) -> i32 {
         }
         Outcome::Broken(_) => 2,
         _ => 0,
+    }
+}
+
+/// entry point of the libFuzzer target: the first byte picks the profile
+pub fn fuzz_case(data: &[u8]) -> Outcome {
+    match data.split_first() {
+        Some((b, rest)) if b % 2 == 1 => case_profile(rest, &Profile::dense()),
+        Some((_, rest)) => case_profile(rest, &Profile::general()),
+        None => case_profile(data, &Profile::general()),
     }
 }
